@@ -33,7 +33,7 @@ PROFILES = {
     "C09": [("ttl", 15), ("seq", 8), ("reads", 5), ("lg-ttl", 4)],
     "C10": [("ttl", 18), ("seq", 8), ("evictrace", 6), ("lg-ttl", 4), ("lg-evictrace", 3)],
     "C11": [("burst", 20), ("mix", 8), ("lg-burst", 5), ("delrace", 6)],
-    "C13": [("shutdown", 10), ("shutrace", 80), ("mix", 3), ("lg-shutdown", 5)],
+    "C13": [("shutdown", 10), ("shutrace", 80), ("mix", 3), ("lg-shutdown", 5), ("fill", 3)],
     "C15": [("reads", 14), ("mix", 4), ("lg-reads", 4)],
     "C16": [("stats", 15), ("allhit", 6), ("mix", 6), ("lg-stats", 4)],
     "C17": [("boundary", 20), ("evictrace", 14), ("mix", 5), ("pressure", 3), ("ttl", 3), ("lg-boundary", 4), ("hugefill", 6)],
@@ -50,6 +50,7 @@ for p in PROFILES:
                 "every step of it is one conformance check and one evaluation of the property's judge",
     }
 PLANS["C13"]["hang_is_violation"] = True
+PLANS["C11"]["hang_is_violation"] = True     # a wedge between a caller and the worker means queued writes are never applied
 PLANS["C13"]["locks"] = True            # lock events of the shutdown runs -> Locks.tla: no wait cycle may involve the shutdown sequence
 PLANS["C13"]["locks_about"] = "C_Shut"
 # free-running rounds in which shutdown() is called in the middle of the traffic: it must return, and every caller with it
@@ -103,8 +104,8 @@ PLANS["C14"] = {
 PLANS["C18"] = {
     "mc": {"quick": [{"module": "MC_LocksRef", "cfg": "MC_LocksRef", "constants": "reference lock programs (extracted from the unchanged tree and reviewed against the code), 5 thread slots, all interleavings"}],
            "thorough": [{"module": "MC_LocksRef", "cfg": "MC_LocksRef", "constants": "reference lock programs, 5 thread slots, all interleavings"}]},
-    "profiles": {"quick": profs([("mix", 6), ("ttl", 5), ("pressure", 4), ("shutrace", 12), ("reads", 3), ("evictrace", 3)], 2),
-                 "thorough": profs([("mix", 8), ("ttl", 6), ("pressure", 5), ("shutrace", 15), ("reads", 5), ("burst", 5), ("boundary", 4), ("evictrace", 4)], 12)},
+    "profiles": {"quick": profs([("mix", 6), ("ttl", 5), ("pressure", 4), ("shutrace", 12), ("reads", 3), ("evictrace", 3), ("fill", 3)], 2),
+                 "thorough": profs([("mix", 8), ("ttl", 6), ("pressure", 5), ("shutrace", 15), ("reads", 5), ("burst", 5), ("boundary", 4), ("evictrace", 4), ("fill", 3)], 12)},
     "stress": {"quick": [{"rounds": 30, "threads": 4, "ops": 400}], "thorough": [{"rounds": 400, "threads": 6, "ops": 600, "timeout_ms": 30000}]},
     "locks": True,
     "hang_is_violation": True,
@@ -159,6 +160,9 @@ PLANS["C18"]["stress"] = {"quick": PLANS["C18"]["stress"]["quick"] + [{"rounds":
                           "thorough": PLANS["C18"]["stress"]["thorough"] + [{"rounds": 3000, "threads": 6, "ops": 6000, "timeout_ms": 15000, "args": "--shutdown-mid"}]}
 PLANS["C12"]["direct"]["quick"] = PLANS["C12"]["direct"]["quick"] + [CONTEND_Q]
 PLANS["C12"]["direct"]["thorough"] = PLANS["C12"]["direct"]["thorough"] + [CONTEND_T]
+# the delivery step itself (a drained buffer applied to the sketch) also for C15: every record of a batch reaches the sketch exactly once
+PLANS["C15"]["direct"]["quick"] = PLANS["C15"]["direct"]["quick"] + [{"name": "sketch", "cmd": "sketchrun --seed {seed} --runs 60 --rows 100", "trace_spec": "TraceSketch"}]
+PLANS["C15"]["direct"]["thorough"] = PLANS["C15"]["direct"]["thorough"] + [{"name": "sketch", "cmd": "sketchrun --seed {seed} --runs 1500 --rows 100", "trace_spec": "TraceSketch"}]
 for p in ["C07"]:
     PLANS[p]["direct"]["quick"] = PLANS[p]["direct"]["quick"] + [STRESS_MIX_Q]
     PLANS[p]["direct"]["thorough"] = PLANS[p]["direct"]["thorough"] + [STRESS_MIX_T]
